@@ -205,9 +205,7 @@ theorem corr_step {T : Table} {s s' : MState} {h h' : HState}
 
 /-- the model's answer to `is_after_blank_ending_alias` for the next token -/
 def mblank (s : MState) : Bool :=
-  match s.rest.drop (skipLen s.rest) with
-  | [] => false
-  | c0 :: _ => afterBlank ((markLc (s.rest.take (skipLen s.rest))).reverse ++ s.pre) (some c0)
+  afterBlank ((markLc (s.rest.take (skipLen s.rest))).reverse ++ s.pre) (s.rest.drop (skipLen s.rest)).head?
 
 /-- the Spec's answer: the flag after the blanks before the next token have been read -/
 def hblank (h : HState) : Bool := flagRun h.active true (skipLenC h.rest) h.tb h.rest
@@ -236,7 +234,7 @@ theorem cand_agree {T : Table} {s : MState} {h : HState}
     cases (trans h.st Kind.eof).sub <;> rfl
   | cons c0 tl =>
     rw [hdrop] at hb
-    simp only at hb
+    simp only [List.head?_cons] at hb
     have hd : h.rest.drop (skipLenC h.rest) = c0.c :: chars tl := by
       rw [hk, hr, ← chars_drop, hdrop]; rfl
     have htok : lexTokC (c0.c :: chars tl) = lexTok (c0 :: tl) := rfl
@@ -343,24 +341,32 @@ theorem endsValue_noeb (rs : List Region) (rem : Nat) (h : ∀ r ∈ rs, r.eb = 
     simp [this]
   · rfl
 
+theorem flagGo_noeb (rs : List Region) (h : ∀ r ∈ rs, r.eb = false) :
+    ∀ (L : List (Char × Bool)) (rem : Nat), flagGo rs false L rem = false := by
+  intro L
+  induction L with
+  | nil => intro _; rfl
+  | cons x t ih =>
+    intro rem
+    obtain ⟨c, lc⟩ := x
+    unfold flagGo
+    cases lc <;> cases isBlank c <;> simp [endsValue_noeb rs _ h, ih]
+
 theorem flagRun_noeb (rs : List Region) (lc : Bool) (h : ∀ r ∈ rs, r.eb = false) :
     ∀ (k : Nat) (l : List Char), flagRun rs lc k false l = false := by
-  have key : ∀ (k : Nat) (b : Bool) (l : List Char), b = false → flagRun rs lc k b l = false := by
-    intro k b l
-    fun_induction flagRun rs lc k b l <;> simp_all [endsValue_noeb]
-  exact fun k l => key k false l rfl
+  intro k l
+  unfold flagRun
+  exact flagGo_noeb rs h _ _
 
 theorem noeb_blank {s : MState} {h : HState} (hp : NoEb s h) : mblank s = hblank h := by
   obtain ⟨h1, h2, h3, h4⟩ := hp
   unfold mblank hblank
   rw [h3, flagRun_noeb _ _ h4]
-  split
-  · rfl
-  · apply afterBlank_noeb
-    intro p hp'
-    rcases List.mem_append.mp hp' with ha | hb
-    · exact markLc_noeb (fun c hc => h2 c (List.mem_of_mem_take hc)) p (List.mem_reverse.mp ha)
-    · exact h1 p hb
+  apply afterBlank_noeb
+  intro p hp'
+  rcases List.mem_append.mp hp' with ha | hb
+  · exact markLc_noeb (fun c hc => h2 c (List.mem_of_mem_take hc)) p (List.mem_reverse.mp ha)
+  · exact h1 p hb
 
 theorem noeb_step {T : Table} (hT : ∀ a ∈ T, endsBlank a.value = false) {s s' : MState} {h h' : HState}
     (hs : Sim s h) (hp : NoEb s h) (hc : mcand T s = hcand T h)
